@@ -49,37 +49,52 @@ def run(tier, replay=None):
     try:
         mc(chk, tier)
         exe = vlib.build_cxx("asm_case", ["asm_case.cpp"])
-        cases, res, recs, keep, notes, tdir = asmlib.layout_pipeline(tier, d, vlib.rng(5), exe, passes=True)
-        nrej = 0
-        for c, r in zip(cases, res):
-            if r['status'] == 'timeout':
-                chk.violation("noterm:" + family(c['id']), "hexasm did not terminate within its CPU budget on %s" % c['id'], {"case.S": c['src']})
-            elif r['status'] == 'skipped':
-                pass
-            elif r['status'] in ('crash', 'missing'):
-                chk.violation("crash:" + family(c['id']), "hexasm crashed on %s: %s" % (c['id'], r.get('stderr', '')[-500:]), {"case.S": c['src']})
-            elif r['status'] == 'error':
-                nrej += 1
-                # the only rejection the generators can provoke legitimately is an unaligned absolute reference
-                if 'not word aligned' not in r.get('diag', ''):
-                    chk.violation("rejected:" + family(c['id']), "hexasm rejected a well-formed program (%s): %s" % (c['id'], r.get('diag')), {"case.S": c['src']})
-        can = json.loads(json.dumps(recs[0])); can['id'] = 'canary'
-        # canary: move a label reference's operand by one (flip low bit of the last byte of the first instruction)
-        can['img'][0] ^= 0x01
-        verd = asmlib.validate(recs + [can], d, "c05v")
-        if verd[-1]['layout'] == "":
-            raise vlib.MachineryError("canary record accepted: binding is not live")
-        ok = 0; fam = {}
-        for c, v in zip(keep, verd[:-1]):
-            fam[family(c['id'])] = fam.get(family(c['id']), 0) + 1
-            if v['layout'] == "":
-                ok += 1
-            else:
-                chk.violation("layout:%s:%s" % (family(c['id']), re.sub(r'\d+', 'N', v['layout'])),
-                              "hexasm output for %s violates the layout contract: %s" % (c['id'], v['layout']),
-                              {"case.S": c['src'], "prog.json": json.dumps(asmlib.strip(c['prog']))})
+        nrej = 0; ok = 0; fam = {}; ncases = 0; nkeep = 0; walked = 0; first = True; samples = []
+        rrng = vlib.rng(55); relax_cands = []
+        for cases, res, recs, keep, notes, tdir in asmlib.layout_chunks(tier, d, vlib.rng(5), exe, 10 ** 9 if tier == "quick" else 1500000):
+            ncases += len(cases)
+            for c, r in zip(cases, res):
+                if r['status'] == 'timeout':
+                    chk.violation("noterm:" + family(c['id']), "hexasm did not terminate within its CPU budget on %s" % c['id'], {"case.S": c['src']})
+                elif r['status'] == 'skipped':
+                    pass
+                elif r['status'] in ('crash', 'missing'):
+                    chk.violation("crash:" + family(c['id']), "hexasm crashed on %s: %s" % (c['id'], r.get('stderr', '')[-500:]), {"case.S": c['src']})
+                elif r['status'] == 'error':
+                    nrej += 1
+                    # the only rejection the generators can provoke legitimately is an unaligned absolute reference
+                    if 'not word aligned' not in r.get('diag', ''):
+                        chk.violation("rejected:" + family(c['id']), "hexasm rejected a well-formed program (%s): %s" % (c['id'], r.get('diag')), {"case.S": c['src']})
+            if not recs:
+                continue
+            extra = []
+            if first:
+                can = json.loads(json.dumps(recs[0])); can['id'] = 'canary'
+                can['img'][0] ^= 0x01          # canary: flip the low bit of the first instruction byte
+                extra = [can]
+            verd = asmlib.validate(recs + extra, d, "c05v")
+            if first:
+                if verd[-1]['layout'] == "":
+                    raise vlib.MachineryError("canary record accepted: binding is not live")
+                verd = verd[:-1]; first = False
+            for c, v in zip(keep, verd):
+                fam[family(c['id'])] = fam.get(family(c['id']), 0) + 1
+                walked += v['n']
+                if v['layout'] == "":
+                    ok += 1
+                else:
+                    chk.violation("layout:%s:%s" % (family(c['id']), re.sub(r'\d+', 'N', v['layout'])),
+                                  "hexasm output for %s violates the layout contract: %s" % (c['id'], v['layout']),
+                                  {"case.S": c['src'], "prog.json": json.dumps(asmlib.strip(c['prog']))})
+            nkeep += len(keep)
+            if len(samples) < 2:
+                samples.append({"id": keep[-1]['id'], "source_head": keep[-1]['src'][:160], "verdict": verd[-1]})
+            relax_cands += asmlib.relax_candidates(cases, res, rrng, 1200 if tier == "quick" else 2500)
         # mechanism conformance (drift grade): the code's relaxation passes are AsmRelax's passes at radix 16
-        rr = asmlib.relax_records(cases, res, vlib.rng(55), 1200 if tier == "quick" else 20000)
+        rrng.shuffle(relax_cands)
+        relax_cands = relax_cands[:1200 if tier == "quick" else 20000]
+        rres = asmlib.run_cases(exe, relax_cands, d, "relaxp", flags="p")
+        rr = asmlib.relax_records(relax_cands, rres, rrng, len(relax_cands))
         if rr:
             can2 = json.loads(json.dumps(rr[0])); can2['id'] = 'canary'; can2['passes'][-1]['total'] += 1
             rf = os.path.join(d, "relax.ndjson"); vlib.write_ndjson(rf, rr + [can2])
@@ -94,20 +109,20 @@ def run(tier, replay=None):
             chk.set("DRIFT_relaxation_runs_differing_from_AsmRelax", len(drift))
             if drift:
                 chk.set("drift_examples", drift[:3])
-        chk.add("programs_assembled", len(keep))
+        chk.add("programs_assembled", nkeep)
         chk.add("programs_layout_ok", ok)
         chk.add("programs_rejected_unaligned_abs", nrej)
         chk.set("programs_by_family", fam)
-        chk.set("directives_walked", sum(v['n'] for v in verd[:-1]))
+        chk.set("directives_walked", walked)
         chk.set("traces_validated_against_impl", ok)
-        chk.set("evaluations", len(cases))
+        chk.set("evaluations", ncases)
         chk.set("distinct_nontrivial", ok)
         chk.set("rule", "cases: boundary sweeps (kind x direction x distance), coupled references across a DATA gap, seeded random "
-                        "multi-label programs, shipped .S files; distinct by id; non-trivial = accepted by hexasm and walked by TLC")
-        chk.sample({"id": keep[3]['id'], "source_head": keep[3]['src'][:160]})
-        chk.sample({"id": keep[-1]['id'], "verdict": verd[len(keep) - 1]})
+                        "multi-label programs, immediates, shipped .S files; distinct by id; non-trivial = accepted by hexasm and walked by TLC")
+        for smp in samples:
+            chk.sample(smp)
         chk.assumptions += ["labels are unique per program (duplicates are C10's business)",
-                            "AsmRelax transfers to the code only through the conformance samples (radix 16 is not model-checked)"]
+                            "AsmRelax is bound to the code by AsmRelaxV (drift grade); radix 16 itself is not model-checked"]
         chk.vacuity(ok < 500, "too few programs validated")
     finally:
         shutil.rmtree(d, ignore_errors=True)
